@@ -16,8 +16,9 @@ PLANS = {
                 quick=[("rand", 300, ""), ("burst", 20, "ks=2+3+17+240+700"), ("paced", 40, ""), ("absorb", 24, ""), ("moves", 60, ""), ("lag", 100, ""), ("endwatch", 60, "")],
                 thorough=[("rand", 5000, ""), ("burst", 200, "ks=2+3+17+240+2049+5000"), ("paced", 600, ""), ("absorb", 200, ""), ("moves", 1500, "")]),
     "C04": dict(engine=INO, mc=["MC_WatchSet"],
-                quick=[("wsexh", 196, "k=2"), ("wsexh", 900, "k=3"), ("wsrand", 200, ""), ("repoint", 60, ""), ("tlcws", 600, "k=3")],
-                thorough=[("wsexh", 196, "k=2"), ("wsexh", 2744, "k=3"), ("wsexh", 38416, "k=4"), ("wsrand", 6000, ""), ("repoint", 600, ""), ("tlcws", 100000, "k=4")]),
+                quick=[("wsexh", 196, "k=2"), ("wsexh", 900, "k=3"), ("wsrand", 200, ""), ("repoint", 60, ""), ("tlcws", 600, "k=3"), ("lag", 150, ""), ("endwatch", 100, "")],
+                thorough=[("wsexh", 196, "k=2"), ("wsexh", 2744, "k=3"), ("wsexh", 38416, "k=4"), ("wsrand", 6000, ""), ("repoint", 600, ""), ("tlcws", 100000, "k=4"),
+                          ("lag", 3000, ""), ("endwatch", 2000, "")]),
     "C05": dict(engine=INO, mc=["MC_Sched", "MC_SchedLive"], also_lin=True,
                 quick=[("lag", 300, ""), ("close", 100, ""), ("stall", 40, ""), ("ovfstall", 2, "")],
                 thorough=[("lag", 5000, ""), ("close", 2000, ""), ("stall", 600, ""), ("ovfstall", 12, "")]),
